@@ -39,13 +39,19 @@ fn subprocess_result(mut args: Args) -> Result<i32> {
     match unsafe { fork() } {
         0 => {
             // Fork success in child - Run linker in this process.
+            #[cfg(feature = "verif")]
+            crate::verif::phase::point("child:after-fork");
 
             crate::setup_tracing(&args)?;
             let thread_pool = args.common_mut().activate_thread_pool()?;
             let linker = crate::Linker::new();
             let _outputs = linker.run(&args, &thread_pool)?;
             crate::timing::finalise_perfetto_trace()?;
+            #[cfg(feature = "verif")]
+            crate::verif::phase::point("child:before-inform");
             inform_parent_done(&fds);
+            #[cfg(feature = "verif")]
+            crate::verif::phase::point("child:after-inform");
             Ok(0)
         }
         -1 => {
@@ -56,6 +62,8 @@ fn subprocess_result(mut args: Args) -> Result<i32> {
         }
         pid => {
             // Fork success in the parent - wait for the child to "signal" us it's done
+            #[cfg(feature = "verif")]
+            crate::verif::phase::point("parent:before-wait");
             let exit_status = wait_for_child_done(&fds, pid);
             Ok(exit_status)
         }
